@@ -169,7 +169,8 @@ func (k msgServer) PurchaseWrkChainStateStorage(goCtx context.Context, msg *type
 	maxParam := k.GetParamMaxStorageLimit(ctx)
 	wrkchainStorageAfter := wrkchainStorage.InStateLimit + msg.Number
 
-	if wrkchainStorageAfter > maxParam {
+	// the sum is computed on uint64: a wrapped-around result must be refused as well
+	if wrkchainStorageAfter < wrkchainStorage.InStateLimit || wrkchainStorageAfter > maxParam {
 		return nil, sdkerrors.Wrap(types.ErrExceedsMaxStorage, fmt.Sprintf("%d will exceed max storage of %d", wrkchainStorageAfter, maxParam))
 	}
 
